@@ -31,6 +31,9 @@ ASSUMPTIONS = [
     'members addressing unknown tags/objects are not bundled: individually they end the session with an encapsulation error '
     'and produce no CIP reply to compare (unknown *attributes* of existing objects, answered with CIP status 0x05, are bundled)',
     'the bundle is addressed to the Message Router (class 2, instance 1) inside an Unconnected Send, as clients do',
+    'a member with an unsupported service code is not bundled either: individually it is answered at encapsulation level (C06 states '
+    'exactly that), so there is no individual CIP reply to compare; observed: such a member makes the whole bundle fail with status '
+    '0x08 after the earlier members were executed -- consistent with the singles, where the session dies at that request',
     'a Set Attribute Single carrying zero data bytes is not bundled (the dialect parser rejects it: no CIP reply individually)',
     'in-process driver and reference codec as for C03; the simulator does not model reply-size overflow of a bundle',
 ]
